@@ -184,4 +184,70 @@ def claim (σ : St) (a : Addr) (factor : Int) (now claimEnd macc : Int) : Res (S
       else if macc < pay then .err
       else .ok ({ σ1 with u := upd σ1.u a { (σ1.u a) with r := 0 } }, pay)
 
+/-! ### one claim object fed by several instances
+
+  `USDXMintingClaim`, `HardLiquidityProviderClaim`, `SwapClaim` and `EarnClaim` each hold ONE `Reward`
+  and the reward indexes of SEVERAL source instances (cdp collateral types; hard supply and borrow
+  denoms; swap pools; earn vaults).  For one owner and one reward denom: the stored reward `r` and, per
+  instance, the instance's global index, the owner's source shares in it and the index stored in the claim. -/
+
+/-- one source instance as seen from one owner's claim (one reward denom) -/
+structure Inst where
+  I : Int   -- global reward index of the instance
+  s : Int   -- the owner's source shares in the instance
+  i : Int   -- index stored in the claim for the instance (absent = 0)
+deriving Repr, DecidableEq, Inhabited
+
+/-- one owner's claim object restricted to one reward denom -/
+structure MClaim where
+  r : Int
+  xs : List Inst
+deriving Repr, DecidableEq
+
+/-- what synchronising this instance would add now (0 when the index decreased) -/
+def Inst.pending (x : Inst) : Int := (singleReward x.i x.I x.s).getD 0
+
+/-- the instance after a synchronisation: stored index := global index -/
+def Inst.synced (x : Inst) : Inst := { x with i := x.I }
+
+/-- Σ over the instances of what a synchronisation would add -/
+def pendingSum : List Inst → Int
+  | [] => 0
+  | x :: xs => x.pending + pendingSum xs
+
+/-- `Synchronize<Source>Claim` / `GetSynchronized<Source>Claim`: every instance in turn, each one
+    continuing from the RUNNING claim (the reward credited so far is carried along). -/
+def syncAllFrom (r : Int) : List Inst → Res (Int × List Inst)
+  | [] => .ok (r, [])
+  | x :: xs =>
+    match singleReward x.i x.I x.s with
+    | none => .panic
+    | some d =>
+      match syncAllFrom (r + d) xs with
+      | .ok (r', ys) => .ok (r', x.synced :: ys)
+      | .err => .err
+      | .panic => .panic
+
+/-- the hook of ONE instance (`Before…Modified` of the k-th instance): only that instance is synchronised -/
+def syncAt (c : MClaim) (k : Nat) : Res MClaim :=
+  match c.xs[k]? with
+  | none => .ok c
+  | some x =>
+    match singleReward x.i x.I x.s with
+    | none => .panic
+    | some d => .ok { r := c.r + d, xs := c.xs.set k x.synced }
+
+/-- `Claim<Source>Reward` for one reward denom of a claim object fed by several instances -/
+def mclaim (c : MClaim) (factor : Int) (now claimEnd macc : Int) : Res (MClaim × Int) :=
+  if now > claimEnd then .err
+  else
+    match syncAllFrom c.r c.xs with
+    | .panic => .panic
+    | .err => .err
+    | .ok (amt, ys) =>
+      let pay := Dec.roundInt (Dec.mul (Dec.ofInt amt) ⟨factor⟩)
+      if pay = 0 then .err
+      else if macc < pay then .err
+      else .ok ({ r := 0, xs := ys }, pay)
+
 end KV.Acc
